@@ -507,6 +507,38 @@ def p_C16(tier, seed):
     f = engines.engine_A("C16", ["pq", "dpq"], n, mp, lambda p: False, ["contents"], extra_probes=extra)
     f.merge(engines.engine_C("C16", ["pq", "dpq"], ["drain"], scope(tier, [0, 1, 2, 3], [0, 1, 2, 3, 4, 5]),
                              scope(tier, 4, 6), adaptors=False))
+    # larger queues and queues with spare capacity (with_capacity, reserve, shrink_to_fit before): clear / drain,
+    # then a refill and the operations that touch the index tables
+    import random
+    rng = random.Random(seed)
+    cases = []
+    for kind in ("pq", "dpq"):
+        pm = ["pop"] if kind == "pq" else ["pop_min", "pop_max"]
+        setups = []
+        for nn in scope(tier, (29, 33, 40), (8, 15, 16, 29, 32, 33, 40, 64, 100)):
+            setups.append([{"op": "push", "k": "k%d" % i, "r": rng.randint(0, 9)} for i in range(nn)])
+        setups.append([{"op": "new", "q": 0, "how": "with_capacity", "cap": 40}] + [{"op": "push", "k": "k%d" % i, "r": i % 3} for i in range(5)])
+        setups.append([{"op": "push", "k": "k%d" % i, "r": i % 4} for i in range(10)] + [{"op": "reserve", "n": 100}])
+        setups.append([{"op": "push", "k": "k%d" % i, "r": i % 5} for i in range(35)] + [{"op": pm[0]}] * 20 + [{"op": "shrink_to_fit"}])
+        actions = [[{"op": "clear"}]]
+        for calls, forget in (([], False), ([], True), ([0, 1, 0], False), ([0, 1, 0], True), ([0] * 200, False), ([2, 1, 1, 2], True)):
+            actions.append([{"op": "iter_calls", "it": "drain", "calls": calls, "forget": forget}])
+        for si, su in enumerate(setups):
+            for ai, ac in enumerate(actions):
+                after = []
+                for rep in range(2):
+                    after += [{"op": "push", "k": "z%d" % j, "r": [3, 5, 1, 4, 2][j]} for j in range(5)]
+                    after += [{"op": "remove", "k": "z0"}, {"op": pm[0]}, {"op": pm[-1]}, {"op": "contents"},
+                              {"op": "change_priority", "k": "z3", "r": 9}, {"op": pm[0]}, {"op": "push", "k": "k1", "r": 7},
+                              {"op": "sorted", "mode": "pop" if kind == "pq" else "pop_min"}]
+                    after += ac if rep == 0 else []
+                cases.append({"case": [kind, "big", si, ai], "kind": kind, "hasher": "std",
+                              "universe": ["k%d" % i for i in range(6)] + ["z%d" % j for j in range(5)],
+                              "steps": su + ac + after, "probes": [], "wit": []})
+    t = engines.Findings()
+    t.stats["engines"].append({"engine": "C16-big", "cases": len(cases)})
+    engines.replay_and_validate(cases, vlib.workdir("C16_big"), "big", t)
+    f.merge(t)
     return f
 
 
